@@ -315,6 +315,27 @@ func wholeLife(r *core.Rand, height, hash uint8, stub bool, viaUnitAbove uint8) 
 	return ep
 }
 
+// allJumps: every single forward jump i -> j of a height, the path then
+// followed for a few indices and at the last index.
+func allJumps(b *Batch, seed uint64, prop string, height uint8, twin string) {
+	leaves := uint32(1) << height
+	for i := uint32(0); i < leaves; i++ {
+		for j := i; j < leaves; j++ {
+			r := core.Derive(seed, "keysim", prop, "jumps", height, i, j)
+			ep := &Episode{Kind: "xmss", Profile: "all-jumps", Height: height, Hash: uint8(r.Intn(3)), Stub: true, SeedHex: seedHex(r), Twin: twin, Drain: "tail:3", DrainSeed: r.Uint64()}
+			if i > 0 {
+				if r.Chance(0.5) {
+					ep.Ops = append(ep.Ops, Op{K: "jump", J: i})
+				} else {
+					ep.Ops = append(ep.Ops, Op{K: "walk", N: i, Via: "unit"})
+				}
+			}
+			ep.Ops = append(ep.Ops, Op{K: "jump", J: j})
+			b.Fixed = append(b.Fixed, ep)
+		}
+	}
+}
+
 // Batch is the list of episodes of one (property, tier, seed).
 type Batch struct {
 	Fixed  []*Episode
@@ -359,6 +380,11 @@ func NewBatch(prop, tier string, seed uint64) *Batch {
 			for hf := uint8(0); hf < 3; hf++ {
 				b.Fixed = append(b.Fixed, wholeLife(fr, realLife[i], hf, false, 0))
 			}
+		}
+		allJumps(b, seed, "C01", 4, "none")
+		allJumps(b, seed, "C01", 6, "none")
+		if thorough {
+			allJumps(b, seed, "C01", 8, "none")
 		}
 		b.Random = 400
 		if thorough {
@@ -462,6 +488,11 @@ func NewBatch(prop, tier string, seed uint64) *Batch {
 		sweep(6, true)
 		sweep(4, true)
 		sweep(4, false)
+		allJumps(b, seed, "C08", 4, "unit")
+		allJumps(b, seed, "C08", 6, "unit")
+		if thorough {
+			allJumps(b, seed, "C08", 8, "unit")
+		}
 		b.Random = 500
 		if thorough {
 			b.Random = 8000
